@@ -441,6 +441,34 @@ const OFFSET_DEFAULT_DISTRIBUTION: [i32; 29] = [
     1, 1, 1, 1, 1, 1, 2, 2, 2, 1, 1, 1, 1, 1, 1, 1, 1, 1, 1, 1, 1, 1, 1, 1, -1, -1, -1, -1, -1,
 ];
 
+/// Verification hooks (pass-through).
+#[cfg(zstd_rs_verif)]
+pub(crate) mod verif {
+    pub fn lookup_ll_code(code: u8) -> (u32, u8) {
+        super::lookup_ll_code(code)
+    }
+    pub fn lookup_ml_code(code: u8) -> (u32, u8) {
+        super::lookup_ml_code(code)
+    }
+    /// (accuracy log, distribution) of the predefined LL, OF, ML tables as the decoder uses them
+    pub fn predefined() -> [(u8, &'static [i32]); 3] {
+        [
+            (
+                super::LL_DEFAULT_ACC_LOG,
+                &super::LITERALS_LENGTH_DEFAULT_DISTRIBUTION[..],
+            ),
+            (
+                super::OF_DEFAULT_ACC_LOG,
+                &super::OFFSET_DEFAULT_DISTRIBUTION[..],
+            ),
+            (
+                super::ML_DEFAULT_ACC_LOG,
+                &super::MATCH_LENGTH_DEFAULT_DISTRIBUTION[..],
+            ),
+        ]
+    }
+}
+
 #[test]
 fn test_ll_default() {
     let mut table = crate::fse::FSETable::new(MAX_LITERAL_LENGTH_CODE);
